@@ -103,7 +103,7 @@ CallFn(f, args, env, input) ==
          ELSE EOk(<<B(\A j \in 1..Len(ts) : ts[j] = "T" \/ (Mutant = "allIgnoresEmpty" /\ ts[j] = "E"))>>)
     [] f = "empty"  -> EOk(<<B(Len(input) = 0)>>)
     [] f = "count"  -> EOk(<<I(Len(input))>>)
-    [] f = "first"  -> EOk(IF Len(input) = 0 THEN <<>> ELSE <<input[1]>>)
+    [] f = "first"  -> EOk(IF Len(input) = 0 THEN (IF Mutant = "firstOfEmptyFabricates" THEN <<B(FALSE)>> ELSE <<>>) ELSE <<input[1]>>)
     [] f = "last"   -> EOk(IF Len(input) = 0 THEN <<>> ELSE <<input[Len(input)]>>)
     [] f = "tail"   -> EOk(IF Len(input) = 0 THEN <<>> ELSE SubSeq(input, 2, Len(input)))
     [] f \in {"skip", "take"} ->
